@@ -45,6 +45,10 @@ theorem fact_router : factLocalFirst = true ∧
 theorem fact_deactivation : Facts.C18.deactivationConds =
     ["resolver.IsDeactivated(document)", "metadata == nil || !metadata.AllowDeactivated"] := by decide
 
+/-- `didsubject.Resolver`: a failed lookup is `ErrNotFound` only for "record not found"; any other store error is
+    returned as it is (so the did:web chain stops instead of going to the network) -/
+theorem fact_local_resolver_errors : Facts.C18.localResolverErrorReturns = ["resolver.ErrNotFound", "err"] := by decide
+
 /-! ### did:web identifier <-> URL round trip -/
 
 /-- **Round trip.** For every identifier of the decidable grammar `wfDID` — method web; a domain name that is not an
@@ -266,6 +270,15 @@ theorem local_first_no_network (dec : List Nat) (cts : List Bytes) (pol : Policy
   split
   · rfl
   · cases hs : n.localState d <;> simp_all
+
+/-- A storage fault while looking up a did:web DID (any store error other than "no such record") stops the resolution
+    with that error: no outbound request — the node never answers for a possibly managed, possibly deactivated DID with
+    whatever the web serves. -/
+theorem local_store_fault_no_network (dec : List Nat) (cts : List Bytes) (pol : Policy) (strict : Bool) (n : Node) (allow : Bool)
+    (d : DID) (srv : Nat → Req → Option Resp) (hm : d.method = sWeb) (hc : n.didMethods.contains sWeb = true)
+    (hf : n.localState d = .dbError) :
+    resolve dec cts pol true strict n allow d srv = ([], .err "db") := by
+  unfold resolve; simp only [hm, hc, hf, if_true]; simp [resolveLocal]
 
 /-- A deactivated DID (did:web in the node's store, or did:nuts) does not resolve unless the caller allows it, and
     with the flag it resolves marked as deactivated — without touching the network. -/
